@@ -6,7 +6,7 @@ via the generated Gen/ErrorMap.v).  Correspondence: the extracted decoders again
 for all inputs of <= 2 octets and on mutated valid messages (debug + release).  API level: every version and
 security configuration x {get, get_many, getnext, getbulk, refresh} against replies that are valid except for one
 defect.  Oracle: no PANIC from the harness, no PanicException from the API, only documented exception classes."""
-from lib import codec, gen, vf
+from lib import codec, gen, pylayer, vf
 import ber
 
 DOCUMENTED = {"SnmpError", "SnmpDecodeError", "SnmpEncodeError", "SnmpAuthError", "NoSuchInstance", "TimeoutError", "BlockingIOError",
@@ -236,6 +236,9 @@ def main(argv):
                     c.violation("%s session: call %d of a history with large encrypted strays gave %s, expected %s" % (h["_cfg"], k, got, want),
                                 {"scenario": {kk: vv for kk, vv in h.items() if not kk.startswith("_")}, "call": k, "outcome": out}, key="api-history-outcome")
     c.assumptions += ["get_many may raise RuntimeError ('On Python runtime failure' in its docstring) when a varbind cannot be stored in the dict"]
+    # ---- the Python layer alone, on scripted socket results, against Model.PyLayer (lib/pylayer.py)
+    n_pl, d_pl = pylayer.run(c, cd.model, c.rng, 1500 if thorough else 300, "C01")
+    c.coverage["python_layer_cases"] = n_pl
     return c.finish(
         rule="exhaustive: all octet strings of length <= 2 for %s and <= 1 for the other decoders (%d cases incl. the corpus of the five "
              "crashing inputs found at the pinned commit); %d mutated valid messages/PDUs/USM/scoped/values/relative OIDs and privacy-decrypt "
